@@ -108,7 +108,7 @@ def closure_sources(vfile):
             txt = open(os.path.join(COQ, f)).read()
         except FileNotFoundError:
             continue
-        for m in re.finditer(r"^\s*From Verif Require(?: Import| Export)? (.+)\.\s*$", txt, re.M):
+        for m in re.finditer(r"From Verif Require(?: Import| Export)?\s+(.*?)\.\s*\n", txt, re.S):
             for mod in m.group(1).split():
                 todo.append(mod.replace(".", "/") + ".v")
     return seen
